@@ -14,6 +14,8 @@ bodies, call f, map with f, redefine, read), every call with budgets K-1, K, K+1
 """
 import itertools
 
+import sys
+
 from ..core import runner, snapshot, opwrap
 from ..model import refparse, refeval as M
 from . import c09
@@ -153,6 +155,8 @@ DRIVERS = [
     # (label, program, ast_names spec, swallow?)
     ('direct', 'q = v => t(v) + v; q(1) + q(2)', None, False),
     ('recursive', 'r = k => 0 if k < 1 else t(k) + r(k - 1); r(3)', None, False),
+    ('deep-recursion', 'down = k => 0 if k < 1 else down(k - 1) + 1; down(130)', None, False),
+    ('deep-recursion-map', 'dm = k => [0] if k < 1 else map(dm(k - 1), v => v + 1); dm(110)', None, False),
     ('map', 'map(l, v => t(v) * 2)', None, False),
     ('filter', 'filter(l, v => t(v) > 1)', None, False),
     ('reduce', 'reduce(l, (a, b) => a + t(b))', None, False),
@@ -200,6 +204,10 @@ def sweep(res, label, text, ast_spec, swallow, cached=False):
     base = run(text, 10 ** 9, ast_spec, cached)
     out0, v0, n0, log0, K, charged0 = base
     res.count('programs')
+    if out0 == 'limit':
+        res.violation(f'limit-error-below-budget:{label}', 'the ops-limit error was raised although far fewer operations than the budget were started',
+                      {'program': text, 'budget': 10 ** 9, 'expected': 'no ops-limit error', 'observed': f'ops-limit error after {K} node evaluations'})
+        return
     if out0 not in ('ok',) and not out0.startswith('other') and out0 != 'ParserError':
         res.count('unbounded_run_failed')
         return
@@ -254,7 +262,7 @@ def sweep(res, label, text, ast_spec, swallow, cached=False):
 
 # ------------------------------------------------------------------ histories
 
-HIST_CALLS = ['f = v => v + 1; nested("f(1)")', 'h9 = v => t(v); nested("map(l, h9) | len") + h9(1)', 'nested("1 + 1"); f(1)', 'nested("f(1)") + f(2)', 'f = v => v + 1', 'f = v => t(v) + t(v) + v', 'f = v => map(l, w => w + v)', 'f(1)', 'f(2) + f(3)', 'map(l, f)',
+HIST_CALLS = ['ax9 + 1', 'f = v => v + 1; nested("f(1)")', 'h9 = v => t(v); nested("map(l, h9) | len") + h9(1)', 'nested("1 + 1"); f(1)', 'nested("f(1)") + f(2)', 'f = v => v + 1', 'f = v => t(v) + t(v) + v', 'f = v => map(l, w => w + v)', 'f(1)', 'f(2) + f(3)', 'map(l, f)',
               'n', 'g9 = f; g9(1)', 'apply(f, 1)', 'sorted(l, f)']
 
 
@@ -287,8 +295,12 @@ def run_hist_call(res, hist, budgets):
         cnt = Count()
         cur[0] = cnt
         try:
+            kw = {}
+            if 'ax9' in prog:
+                # a tree bound through ast_names is evaluated directly by eval(): lambdas it calls belong to THIS call too
+                kw['ast_names'] = {'ax9': parser().parse('f(1) + f(2)')}
             with opwrap.traced(cnt):
-                parser().eval(prog, names, max_ops_evaluated=(10 ** 9 if bud is None else bud))
+                parser().eval(prog, names, max_ops_evaluated=(10 ** 9 if bud is None else bud), **kw)
             o = 'ok'
         except api.OpsLimit:
             o = 'limit'
@@ -304,6 +316,7 @@ def run_hist_call(res, hist, budgets):
 def work(task):
     res = runner.Result()
     opwrap.install()
+    sys.setrecursionlimit(6000)          # recursion 130 deep under the tracer
     kind = task[0]
     if kind == 'driver':
         _, label, text, spec, sw = task
